@@ -10,6 +10,10 @@ A reader returns a *verdict* about a text, for a graph type in {'simple','digrap
                    (or, by property C14, raises ValueError)
   ('reject', why)  no graph of that type is consistent with the text: a conforming reader must
                    raise ValueError
+  ('graph~', g)    bipartite gml/dot only: the text describes g up to the numbering inside each side
+                   (the documentation says that the order of the vertices is preserved but the order
+                   of declaration and the order of the ids disagree): side sizes and the edge set
+                   up to a renumbering of each side are settled
   ('unclear', why) the documentation does not settle the meaning (only the exception type of the
                    reader can be judged)
 
@@ -447,8 +451,9 @@ def read_gml(text, gtype):
             if b is None or isinstance(b, list) or b.strip('"') not in ('0', '1'):
                 _reject("GML: node {} lacks the 'bipartite' attribute set to 0 or 1".format(i))
             side[i] = int(b.strip('"'))
-        if ids != sorted(ids):
-            _unclear('GML: bipartite graph with ids out of order')
+        # BipartiteGraph.normalize: each side is numbered 1..n / 1..m and "if the vertices in the
+        # original graph have some kind of order, the order is preserved": settled exactly when,
+        # inside each side, the order of declaration is also the order of the ids
         left = [i for i in ids if side[i] == 0]
         right = [i for i in ids if side[i] == 1]
         pairs = []
@@ -458,7 +463,10 @@ def read_gml(text, gtype):
             if side[u] == 1:
                 u, v = v, u
             pairs.append((left.index(u) + 1, right.index(v) + 1))
-        return make_graph('bipartite', (len(left), len(right)), pairs)
+        g = make_graph('bipartite', (len(left), len(right)), pairs)
+        if left != sorted(left) or right != sorted(right):
+            raise _Verdict('graph~', g)
+        return g
     if bool(directed) != (gtype != 'simple'):
         _unclear('GML: directed flag does not match the graph type')
     order = sorted(ids)
@@ -603,34 +611,40 @@ def read_dot(text, gtype):
     if i != len(toks):
         _unclear('DOT: text after the closing }')
     n = len(order)
-    if sorted(order) != sorted(str(k) for k in range(1, n + 1)):
-        _unclear('DOT: vertex names are not exactly 1..n')
     if not strict and len(set(edges)) != len(edges):
         _unclear('DOT: repeated edge in a non strict graph')
     if gtype == 'bipartite':
         if directed:
             _unclear('DOT: digraph read as bipartite')
+        for k in order:
+            if not re.match(r'(0|[1-9][0-9]*)\Z', k):
+                _unclear('DOT: vertex name {!r} is not a numeral'.format(k))
         side = {}
         for k in order:
             b = attrs.get(k, {}).get('bipartite')
             if b is None or b.strip('"') not in ('0', '1'):
                 _reject("DOT: vertex {} lacks the 'bipartite' attribute set to 0 or 1".format(k))
-            side[int(k)] = int(b.strip('"'))
-        inc = [str(k) for k in range(1, n + 1)]
-        if order != inc or stmt_order != inc:
-            # each side is numbered in order of definition; only the increasing case is settled
-            _unclear('DOT: bipartite graph with vertices out of order')
-        left = [k for k in range(1, n + 1) if side[k] == 0]
-        right = [k for k in range(1, n + 1) if side[k] == 1]
+            side[k] = int(b.strip('"'))
+        # every vertex has a statement of its own here; each side is numbered in the order of the
+        # vertices, which is settled when declaration order = order by value = order as text
+        left = [k for k in stmt_order if side[k] == 0]
+        right = [k for k in stmt_order if side[k] == 1]
         pairs = []
         for u, v in edges:
-            u, v = int(u), int(v)
             if side[u] == side[v]:
                 _reject('DOT: edge ({},{}) inside one side'.format(u, v))
             if side[u] == 1:
                 u, v = v, u
             pairs.append((left.index(u) + 1, right.index(v) + 1))
-        return make_graph('bipartite', (len(left), len(right)), pairs)
+        g = make_graph('bipartite', (len(left), len(right)), pairs)
+        for part in (left, right):
+            if part != sorted(part, key=int) or part != sorted(part):
+                raise _Verdict('graph~', g)
+        if order != stmt_order:
+            raise _Verdict('graph~', g)
+        return g
+    if sorted(order) != sorted(str(k) for k in range(1, n + 1)):
+        _unclear('DOT: vertex names are not exactly 1..n')
     if directed != (gtype != 'simple'):
         _unclear('DOT: graph/digraph does not match the graph type')
     return make_graph(gtype, n, [(int(u), int(v)) for u, v in edges])
@@ -660,6 +674,52 @@ def write_dot(g, style=0):
             out.append('{} {} {};'.format(u, '->' if d else '--', v))
     out.append('}')
     return (' ' if style & 4 else '\n').join(out) + '\n'
+
+
+def bipartite_layout_text(fmt, g, decl, ident, flip):
+    """gml / dot text of the bipartite canonical graph g with a chosen layout.
+    decl : the vertices ('L', i) / ('R', j) in the order in which they are declared
+    ident: dict vertex -> integer id (gml id / dot name)
+    flip : set of edges (u, v) of g that are written as (right, left)"""
+    _, L, R, E = g
+    assert sorted(decl) == sorted([('L', i) for i in range(1, L + 1)] + [('R', j) for j in range(1, R + 1)])
+    es = []
+    for (u, v) in sorted(E):
+        a, b = ident[('L', u)], ident[('R', v)]
+        es.append((b, a) if (u, v) in flip else (a, b))
+    if fmt == 'gml':
+        out = ['graph [']
+        for x in decl:
+            out += ['  node [', '    id {}'.format(ident[x]), '    label "{}{}"'.format(x[0], x[1]),
+                    '    bipartite {}'.format(0 if x[0] == 'L' else 1), '  ]']
+        for a, b in es:
+            out += ['  edge [', '    source {}'.format(a), '    target {}'.format(b), '  ]']
+        out.append(']')
+        return '\n'.join(out) + '\n'
+    if fmt == 'dot':
+        out = ['strict graph G {']
+        for x in decl:
+            out.append('{} [bipartite={}];'.format(ident[x], 0 if x[0] == 'L' else 1))
+        for a, b in es:
+            out.append('{} -- {};'.format(a, b))
+        out.append('}')
+        return '\n'.join(out) + '\n'
+    raise ValueError(fmt)
+
+
+def side_isomorphic(g, h):
+    """are two canonical bipartite graphs equal up to a renumbering inside each side?"""
+    import itertools
+    if g[0] != 'bipartite' or h[0] != 'bipartite' or g[1:3] != h[1:3] or len(g[3]) != len(h[3]):
+        return False
+    L, R = g[1], g[2]
+    if L > 6 or R > 6:
+        return None
+    for pl in itertools.permutations(range(1, L + 1)):
+        for pr in itertools.permutations(range(1, R + 1)):
+            if frozenset((pl[u - 1], pr[v - 1]) for u, v in g[3]) == h[3]:
+                return True
+    return False
 
 
 READERS = {'kthlist': read_kthlist, 'dimacs': read_dimacs, 'matrix': read_matrix,
